@@ -110,10 +110,13 @@ func (df *DataFile) WriteMergeFinRecord(id FileID, mergedCount uint32) error {
 	if df.closed {
 		return ErrClosed
 	}
-	data := make([]byte, 8)
-	binary.LittleEndian.PutUint32(data[:4], id)
-	binary.LittleEndian.PutUint32(data[4:], mergedCount)
-	_, err := df.ReadWriter.Write(data)
+	var b [8]byte
+	binary.LittleEndian.PutUint32(b[:4], id)
+	binary.LittleEndian.PutUint32(b[4:], mergedCount)
+	// 与其他记录一致, 以 chunk 形式写入, 读取时才能通过校验
+	data := bytebufferpool.Get()
+	data.B = append(data.B, b[:]...)
+	_, err := df.writeSingle(data)
 	return err
 }
 
